@@ -283,4 +283,105 @@ theorem addrFormL_base (c : Model.X86.Ctx) (ctx : Spec.X86.Ctx) (rb : BitVec 32)
   · intro opcode opReg imm n ho hopc
     rw [emitX86M_base_bytes c opcode opReg rb size d imm n seg a32 hm hts ho hb hopc, hsibeq]
 
+/-! ### the address forms `seg:[base + index * scale + disp]` and `seg:[rip + disp32]` for the legacy emitter -/
+
+theorem emitX86M_index_bytes (c : Model.X86.Ctx) (opcode opReg rb rx : BitVec 32) (size sh : Nat) (d imm : BitVec 64) (n : Nat) (seg : Nat) (a32 : Bool)
+    (hm : c.mode64 = true) (ho : opReg < 16#32) (hb : rb < 16#32) (hx : rx < 16#32) (hx4 : rx ≠ 4#32) (hopc : opcode &&& 0xF780FC00#32 = 0#32) :
+    emitX86M c opcode 0#32 opReg (memBaseIndex size rb rx sh d seg a32) imm n =
+      .ok ((segmentPrefix seg ++ aoBytes a32) ++ ppBytes ((opcode >>> 21) &&& 3#32).toNat ++ ((rexOfM opcode opReg (xbOf rb rx)).toList ++
+           (legacyEscape ((opcode >>> 8) &&& 3#32).toNat ++
+            opcode.truncate 8 :: idxMb (opReg &&& 7#32) (memVariant (rb &&& 7#32) (d.truncate 32) 0#32) ::
+              ((some (idxSib (BitVec.ofNat 32 sh) (rx &&& 7#32) (rb &&& 7#32))).toList ++ memDs rb (d.truncate 32) 0#32 ++ emitImmediate imm n)))) := by
+  have hcd : cdShiftOf opcode = 0#32 := by simp only [cdShiftOf, kCDSHL_Mask]; bv_decide
+  have hrexok : ∀ ri : BitVec 32, ri = 0x0F#32 ∨ ri = 0x8F#32 →
+      ¬ ((((rb >>> 3) &&& 1#32) ||| ((rx >>> 2) &&& 2#32) ||| ((opReg >>> 1) &&& 4#32)) &&& ri ||| extractRex opcode 0#32) > 0x80#32 := by
+    intro ri hri; simp only [extractRex]; rcases hri with h | h <;> subst h <;> bv_decide
+  have hrexeq : ∀ ri : BitVec 32, ri = 0x0F#32 ∨ ri = 0x8F#32 →
+      ((((rb >>> 3) &&& 1#32) ||| ((rx >>> 2) &&& 2#32) ||| ((opReg >>> 1) &&& 4#32)) &&& ri ||| extractRex opcode 0#32) &&& 0x7F#32 =
+      (((xbOf rb rx >>> 3) &&& 1#32) ||| ((xbOf rb rx >>> 3) &&& 2#32) ||| ((opReg >>> 1) &&& 4#32) ||| extractRex opcode 0#32) &&& 0x7F#32 := by
+    intro ri hri; simp only [extractRex, xbOf]; rcases hri with h | h <;> subst h <;> bv_decide
+  unfold emitX86M
+  cases a32
+  · have h1 := hrexok 0x0F#32 (Or.inl rfl)
+    have h2 := hrexeq 0x0F#32 (Or.inl rfl)
+    simp only [memBaseIndex, Bool.false_eq_true, ↓reduceIte, memInfo_gp64_gp64, Model.X86.Ctx.aoMask, hm, BitVec.ofNat_toNat, BitVec.setWidth_eq,
+      show (0x0F#32 &&& 0x80#32 != 0#32) = false from by decide, emitRex, h1, bind, Except.bind, pure, Except.pure, BitVec.ofNat_eq_ofNat, h2,
+      emitPP_eq opcode (by bv_decide), emitMM_eq opcode (by bv_decide)]
+    rw [emitModSib_index_parts c _ _ _ _ _ rb rx 0x0F#32 _ imm n (by decide) (by decide) (by decide) hx4]
+    simp only [hcd, aoBytes, rexOfM, memDs, Bool.false_eq_true, ↓reduceIte]
+    split <;> simp [Mem.offLo32]
+  · have h1 := hrexok 0x8F#32 (Or.inr rfl)
+    have h2 := hrexeq 0x8F#32 (Or.inr rfl)
+    simp only [memBaseIndex, ↓reduceIte, memInfo_gp32_gp32, Model.X86.Ctx.aoMask, hm, BitVec.ofNat_toNat, BitVec.setWidth_eq,
+      show (0x8F#32 &&& 0x80#32 != 0#32) = true from by decide, emitRex, h1, bind, Except.bind, pure, Except.pure, BitVec.ofNat_eq_ofNat, h2,
+      emitPP_eq opcode (by bv_decide), emitMM_eq opcode (by bv_decide)]
+    rw [emitModSib_index_parts c _ _ _ _ _ rb rx 0x8F#32 _ imm n (by decide) (by decide) (by decide) hx4]
+    simp only [hcd, aoBytes, rexOfM, memDs, ↓reduceIte]
+    split <;> simp [Mem.offLo32]
+
+theorem addrFormL_index (c : Model.X86.Ctx) (ctx : Spec.X86.Ctx) (rb rx : BitVec 32) (size sh : Nat) (d : BitVec 64) (seg : Nat) (a32 : Bool)
+    (hm : c.mode64 = true) (hm64 : ctx.mode64 = true) (hb : rb < 16#32) (hx : rx < 16#32) (hx4 : rx ≠ 4#32) (hsh : sh < 4) :
+    AddrFormL c ctx (memBaseIndex size rb rx sh d seg a32) (memOpBaseIndex size rb rx sh d seg a32) (segmentPrefix seg ++ aoBytes a32) (xbOf rb rx)
+      (fun o7 => idxMb o7 (memVariant (rb &&& 7#32) (d.truncate 32) 0#32)) (some (idxSib (BitVec.ofNat 32 sh) (rx &&& 7#32) (rb &&& 7#32)))
+      (memDs rb (d.truncate 32) 0#32) := by
+  have hwa : wantedAddrSize true (memOpBaseIndex size rb rx sh d seg a32) = (if a32 then 32 else 64) := by cases a32 <;> rfl
+  have AFv := addrForm_index (c := { c with preferEvex := false, extraId := 0#32, vsib := false }) ctx rb rx 0#32 size sh d seg a32 hm rfl rfl (by decide) rfl hm64 hb hx hx4 hsh
+  refine ⟨AFv.hxb, ?_, ?_, by cases a32 <;> rfl, rfl, ?_, ?_, ?_⟩
+  · intro pp hpp
+    exact (segPfxL_ok seg a32 pp _ hpp rfl hwa).1
+  · intro pp hpp
+    exact (segPfxL_ok seg a32 pp _ hpp rfl hwa).2.1
+  · intro o7 ho
+    exact AFv.shape o7 0#32 ho
+  · intro rule p o7 pp ho hpp F hvk
+    have h67 := (segPfxL_ok seg a32 pp _ hpp rfl hwa).2.2
+    have h3 : (xbOf rb rx).getLsbD 3 = rb.getLsbD 3 := by simp only [xbOf]; bv_decide
+    have h4 : (xbOf rb rx).getLsbD 4 = rx.getLsbD 3 := by simp only [xbOf]; bv_decide
+    rw [h3, h4] at F
+    exact idxParts_checkMem ctx rule p o7 rb rx 0#32 size sh d hm64 ho hb hx hx4 hsh (by decide) seg a32 _ h67 F (by simp [hvk])
+  · intro opcode opReg imm n ho hopc
+    exact emitX86M_index_bytes c opcode opReg rb rx size sh d imm n seg a32 hm ho hb hx hx4 hopc
+
+theorem emitX86M_rip_bytes (c : Model.X86.Ctx) (opcode opReg : BitVec 32) (size : Nat) (d imm : BitVec 64) (n : Nat) (seg : Nat)
+    (hm : c.mode64 = true) (ho : opReg < 16#32) (hopc : opcode &&& 0xF780FC00#32 = 0#32) :
+    emitX86M c opcode 0#32 opReg (memRip size d seg) imm n =
+      .ok ((segmentPrefix seg ++ aoBytes false) ++ ppBytes ((opcode >>> 21) &&& 3#32).toNat ++ ((rexOfM opcode opReg 0#32).toList ++
+           (legacyEscape ((opcode >>> 8) &&& 3#32).toNat ++
+            opcode.truncate 8 :: ripMb (opReg &&& 7#32) :: ((none : Option (BitVec 8)).toList ++ le32 (d.truncate 32) ++ emitImmediate imm n)))) := by
+  have h1 : ¬ ((((0#32 >>> 3) &&& 1#32) ||| ((0#32 >>> 2) &&& 2#32) ||| ((opReg >>> 1) &&& 4#32)) &&& 0x2C#32 ||| extractRex opcode 0#32) > 0x80#32 := by
+    simp only [extractRex]; bv_decide
+  have h2 : ((((0#32 >>> 3) &&& 1#32) ||| ((0#32 >>> 2) &&& 2#32) ||| ((opReg >>> 1) &&& 4#32)) &&& 0x2C#32 ||| extractRex opcode 0#32) &&& 0x7F#32 =
+      (((0#32 >>> 3) &&& 1#32) ||| ((0#32 >>> 3) &&& 2#32) ||| ((opReg >>> 1) &&& 4#32) ||| extractRex opcode 0#32) &&& 0x7F#32 := by
+    simp only [extractRex]; bv_decide
+  unfold emitX86M
+  simp only [memRip, memInfo_rip, Model.X86.Ctx.aoMask, hm, ↓reduceIte, BitVec.ofNat_eq_ofNat,
+    show (0x2C#32 &&& 0x80#32 != 0#32) = false from by decide, emitRex, h1, bind, Except.bind, pure, Except.pure, h2,
+    emitPP_eq opcode (by bv_decide), emitMM_eq opcode (by bv_decide)]
+  rw [emitModSib_rip_parts c _ _ _ _ _ 0#32 0#32 _ imm n hm]
+  simp only [aoBytes, rexOfM, Bool.false_eq_true, ↓reduceIte]
+  split <;> simp [Mem.offLo32]
+
+theorem addrFormL_rip (c : Model.X86.Ctx) (ctx : Spec.X86.Ctx) (size : Nat) (d : BitVec 64) (seg : Nat)
+    (hm : c.mode64 = true) (hm64 : ctx.mode64 = true) :
+    AddrFormL c ctx (memRip size d seg) (memOpRip size d seg) (segmentPrefix seg ++ aoBytes false) 0#32
+      (fun o7 => ripMb o7) none (le32 (d.truncate 32)) := by
+  have hwa : wantedAddrSize true (memOpRip size d seg) = (if false then 32 else 64) := by simp [wantedAddrSize, memOpRip]
+  have AFv := addrForm_rip (c := { c with preferEvex := false, extraId := 0#32, vsib := false }) ctx 0#32 size d seg hm rfl rfl (by decide) rfl hm64
+  refine ⟨by decide, ?_, ?_, rfl, rfl, ?_, ?_, ?_⟩
+  · intro pp hpp
+    exact (segPfxL_ok seg false pp _ hpp rfl hwa).1
+  · intro pp hpp
+    exact (segPfxL_ok seg false pp _ hpp rfl hwa).2.1
+  · intro o7 ho
+    exact AFv.shape o7 0#32 ho
+  · intro rule p o7 pp ho hpp F hvk
+    have h67 := (segPfxL_ok seg false pp _ hpp rfl hwa).2.2
+    obtain ⟨hpm, hps, hpd, hpv, hpp', hpa, hpB, hpX⟩ := F
+    obtain ⟨f1, f2, f3⟩ := ripMb_factsBV o7 ho
+    refine checkMem_rip ctx rule p (memOpRip size d seg) _ hm64 (by rw [hpp']; exact h67) hpa hpm f1 f2 rfl rfl hps (by rw [hpd]; rfl) ?_
+    rw [hpv, leNat_le32]
+    simp [memOpRip, BitVec.toNat_setWidth]
+  · intro opcode opReg imm n ho hopc
+    exact emitX86M_rip_bytes c opcode opReg size d imm n seg hm ho hopc
+
 end AsmjitVerif.Props.C01
